@@ -299,26 +299,66 @@ def make_model(mspec):
     objs[key] = q
     return q
 
-  conv = any(l["t"] == "qconv" for l in mspec["layers"])
+  import qkeras as qk
+  IMG = ("qconv", "qdw", "qsep", "qpool")
+  conv = any(l["t"] in IMG for l in mspec["layers"])
+  seq = any(l["t"] in ("qrnn", "qbidir") for l in mspec["layers"])
   if conv:
     inp = keras.Input((4, 4, 2), name="in")
+  elif seq:
+    inp = keras.Input((4, 3), name="in")
   else:
     inp = keras.Input((4,), name="in")
   x = inp
-  flat = not conv
+  flat = not (conv or seq)
   for i, l in enumerate(mspec["layers"]):
     t = l["t"]
     name = "l%d" % i
-    if t == "qconv":
-      if flat:
+    if t in IMG:
+      if flat or seq:
         continue
-      x = QConv2D(2, (2, 2), kernel_quantizer=qz(l.get("kq"), (i, "k")),
-                  bias_quantizer=qz(l.get("bq"), (i, "b")), name=name)(x)
+      if t == "qconv":
+        x = QConv2D(2, (2, 2), kernel_quantizer=qz(l.get("kq"), (i, "k")),
+                    bias_quantizer=qz(l.get("bq"), (i, "b")), name=name)(x)
+      elif t == "qdw":
+        x = qk.QDepthwiseConv2D((2, 2), padding="same",
+                                depthwise_quantizer=qz(l.get("kq"), (i, "k")),
+                                bias_quantizer=qz(l.get("bq"), (i, "b")),
+                                name=name)(x)
+      elif t == "qsep":
+        x = qk.QSeparableConv2D(2, (2, 2), padding="same",
+                                depthwise_quantizer=qz(l.get("kq"), (i, "k")),
+                                pointwise_quantizer=qz(l.get("pq"), (i, "p")),
+                                bias_quantizer=qz(l.get("bq"), (i, "b")),
+                                name=name)(x)
+      elif t == "qpool":
+        x = qk.QAveragePooling2D(pool_size=2, padding="same",
+                                 average_quantizer=qz(l.get("kq"), (i, "k")),
+                                 activation=qz(l.get("aq"), (i, "a")),
+                                 name=name)(x)
+    elif t in ("qrnn", "qbidir"):
+      if conv or flat:
+        continue
+      cls = getattr(qk, l.get("rnn", "QSimpleRNN"))
+      lay = cls(2, kernel_quantizer=qz(l.get("kq"), (i, "k")),
+                recurrent_quantizer=qz(l.get("rq"), (i, "r")),
+                bias_quantizer=qz(l.get("bq"), (i, "b")),
+                state_quantizer=qz(l.get("sq"), (i, "s")),
+                return_sequences=True, name=name)
+      if t == "qbidir":
+        lay = qk.QBidirectional(cls(
+            2, kernel_quantizer=qz(l.get("kq"), (i, "k")),
+            recurrent_quantizer=qz(l.get("rq"), (i, "r")),
+            bias_quantizer=qz(l.get("bq"), (i, "b")),
+            return_sequences=True), name=name)
+      x = lay(x)
     else:
       if not flat:
         x = keras.layers.Flatten(name="flat%d" % i)(x)
         flat = True
-      if t == "qdense":
+      if t == "qbn":
+        x = qk.QBatchNormalization(name=name)(x)
+      elif t == "qdense":
         x = QDense(3, kernel_quantizer=qz(l.get("kq"), (i, "k")),
                    bias_quantizer=qz(l.get("bq"), (i, "b")), name=name)(x)
       elif t == "qdense_act":
@@ -340,14 +380,27 @@ def knob_quantizers(model):
   attribute (or a list attribute) that has the knob."""
   from qkeras.base_quantizer import BaseQuantizer
   seen = {}
-  for layer in model.layers:
-    for k, v in list(vars(layer).items()):
+
+  def walk(owner, lname, prefix, depth):
+    for k, v in list(vars(owner).items()):
       if k in ("_self_tracked_trackables", "_obj_reference_counts_dict"):
         continue
       vs = v if isinstance(v, (list, tuple)) else [v]
       for o in vs:
         if isinstance(o, BaseQuantizer) and hasattr(o, "qnoise_factor"):
-          seen.setdefault(id(o), (layer.name, k, o))
+          seen.setdefault(id(o), (lname, prefix + k, o))
+      # recurrent cells and wrapped layers hold the quantizers of RNN /
+      # bidirectional layers
+      if k == "layer" and hasattr(owner, "forward_layer"):
+        # Bidirectional keeps the template layer it was given; the forward
+        # and backward copies are the ones that compute
+        continue
+      if depth < 2 and k in ("cell", "forward_layer", "backward_layer",
+                             "layer") and v is not None and hasattr(
+                                 v, "__dict__"):
+        walk(v, lname, prefix + k + ".", depth + 1)
+  for layer in model.layers:
+    walk(layer, layer.name, "", 0)
   return list(seen.values())
 
 
@@ -431,7 +484,8 @@ class SchedOracle:
                 "from-finish" if t >= cb["finish"] else "curve")
         ctx.violation("scheduler|%s|wrong-factor:%s:%s" % (
             type(q).__name__, kind,
-            "act-arg" if attr == "activation" else "listed"),
+            "act-arg" if attr == "activation" else
+            "rnn-cell" if "cell" in attr or "layer." in attr else "listed"),
             "%s step %d (%s): %s.%s has factor %r, schedule says %r; cb=%r" % (
                 where, t, kind, lname, attr, got, want, cb))
         return
@@ -661,21 +715,56 @@ def gen_model(rng):
   have = []
   for i in range(n):
     t = rng.wpick([("qdense", 4), ("qdense_act", 2), ("qact", 2), ("qconv", 1),
-                   ("plain", 1)])
-    if t == "qconv" and i > 0:
+                   ("plain", 1), ("qdw", 0.6), ("qsep", 0.6), ("qpool", 0.4),
+                   ("qrnn", 0.9), ("qbidir", 0.4), ("qbn", 0.5)])
+    first = layers[0]["t"] if layers else None
+    if t in ("qconv", "qdw", "qsep", "qpool") and i > 0 and first not in (
+        "qconv", "qdw", "qsep", "qpool"):
+      t = "qdense"
+    if t in ("qrnn", "qbidir") and i > 0 and first not in ("qrnn", "qbidir"):
       t = "qdense"
     l = {"t": t}
-    if t in ("qdense", "qdense_act", "qconv"):
+    if t in ("qrnn", "qbidir"):
+      # (quantized_linear kernel quantizers are avoided here: their max() is
+      # a tensor, the Clip constraint built from it does not survive the
+      # config copy Bidirectional makes, and training then fails in the
+      # constraint - unrelated to the noise schedule)
+      l["norecl"] = True
+      l["rnn"] = rng.pick(["QSimpleRNN", "QLSTM"])
+      l["rq"] = gen_qdesc(rng, allow_noknob=False)
+      while l["rq"]["cls"] == "quantized_linear":
+        l["rq"] = gen_qdesc(rng, allow_noknob=False)
+      if rng.chance(0.4):
+        l["sq"] = gen_qdesc(rng, allow_noknob=False)
+    if t == "qsep":
+      l["pq"] = gen_qdesc(rng)
+    if t == "qpool" and rng.chance(0.5):
+      l["aq"] = gen_act(rng)
+    if t == "qpool":
+      # the average quantizer is applied to the scalar 1/pool_area: a plain
+      # fixed-point format (data-dependent scales need a tensor)
+      l["kq"] = {"cls": "quantized_bits", "kw": {"bits": rng.pick([6, 8]),
+                                                 "integer": 0}}
+      if rng.chance(0.3):
+        l["kq"]["kw"]["qnoise_factor"] = 0.5
+      layers.append(l)
+      continue
+    if t in ("qdense", "qdense_act", "qconv", "qdw", "qsep", "qrnn",
+             "qbidir"):
       if have and rng.chance(0.2):
         l["kq"] = {"share": rng.pick(have)}   # (never a quantized_linear)
       else:
         l["kq"] = gen_qdesc(rng)
+        while l.get("norecl") and l["kq"]["cls"] == "quantized_linear":
+          l["kq"] = gen_qdesc(rng)
         if l["kq"]["cls"] != "quantized_linear":
           # quantized_linear.max() reads the scale tensor left by the previous
           # layer's graph; sharing one object between layers is unsupported
           have.append([i, "k"])
       if rng.chance(0.6):
         l["bq"] = gen_qdesc(rng)
+        while l.get("norecl") and l["bq"]["cls"] == "quantized_linear":
+          l["bq"] = gen_qdesc(rng)
     if t == "qdense_act":
       l["aq"] = gen_act(rng)
     if t == "qact":
@@ -746,6 +835,15 @@ def directed_t():
                                                       "kw": {}}}]},
       "po2_conv": {"layers": [{"t": "qconv", "kq": {"cls": "quantized_po2",
                                                      "kw": {"bits": 4}}}]},
+      "rnn": {"layers": [{"t": "qrnn", "rnn": "QSimpleRNN", "kq": qb, "rq": qb,
+                          "bq": qb, "sq": qb}]},
+      "lstm_bidir": {"layers": [{"t": "qbidir", "rnn": "QLSTM", "kq": qb,
+                                 "rq": qb, "bq": qb}]},
+      "sep_dw_pool": {"layers": [{"t": "qsep", "kq": qb, "pq": qb, "bq": qb},
+                                 {"t": "qdw", "kq": qb, "bq": qb},
+                                 {"t": "qpool", "kq": qb, "aq": {
+                                     "cls": "quantized_relu", "kw": {"bits": 4}}}]},
+      "dense_bn": {"layers": [{"t": "qdense", "kq": qb}, {"t": "qbn"}]},
   }
   cbs = [
       {"start": 2, "finish": 6, "freq_type": "step", "update_freq": 1,
